@@ -94,14 +94,21 @@ class Target:
         c.load_key(**self.load)
         return c
 
+    last_peak = 0
+
     def unprotect(self, data: bytes, kdf_budget: int = 300, step_budget: t.Optional[int] = None, use_async: bool = False,
-                  cache: t.Any = None) -> tuple[str, str, int, int]:
+                  cache: t.Any = None, measure_mem: bool = False) -> tuple[str, str, int, int]:
         """-> (outcome, exception class, kdf calls, line events)"""
         import dpapi_ng
 
         cache = cache if cache is not None else self.fresh_cache()
         meter = taps.StepMeter(SRC_PREFIX, step_budget) if step_budget else None
         steps = 0
+        self.last_peak = 0
+        if measure_mem:
+            import tracemalloc
+
+            tracemalloc.start()
         with NetworkTap(), taps.KdfTap(budget=kdf_budget, record=False) as tap:
             try:
                 if meter:
@@ -127,6 +134,12 @@ class Target:
                 res = "error", "builtins.RecursionError"
             except Exception as e:  # noqa
                 res = "error", exc_name(e)
+            finally:
+                if measure_mem:
+                    import tracemalloc
+
+                    self.last_peak = tracemalloc.get_traced_memory()[1]
+                    tracemalloc.stop()
             return res[0], res[1], tap.n, steps
 
 
